@@ -300,6 +300,22 @@ Definition env_ok (r : orun) : bool :=
   end.
 Definition is_nil {A} (l : list A) : bool := match l with [] => true | _ => false end.
 
+(* rotateDB reads the records through settings_dist exactly when the configuration object names a cluster, i.e. exactly
+   when its ALTERs carry ON CLUSTER: every observed statement of a run through rotateDB is one a configuration of the
+   run explains: a SELECT on the table chosen by that configuration's cluster name, an ALTER with that ON CLUSTER text *)
+Definition has_infix (p s : string) : bool := match after p s with Some _ => true | None => false end.
+Definition cluster_ok (c : config) (o : ocall) : bool :=
+  let clustered := negb (String.eqb (cluster c) "") in
+  if o_q o then String.eqb (o_sql o) (get_sql clustered)
+  else if has_infix "ALTER TABLE " (o_sql o)
+       then (if clustered then has_infix (on_cluster c) (o_sql o) else negb (has_infix "ON CLUSTER" (o_sql o)))
+       else true.
+Definition glue_cluster_ok (r : orun) (cfgs : list config) : bool :=
+  match r_kind r with
+  | KDirect => true
+  | _ => forallb (fun o => existsb (fun c => cluster_ok c o) cfgs) (r_log r)
+  end.
+
 Fixpoint runs_ok (start_consistent : bool) (prev_done : option config) (rs : list orun) : bool :=
   match rs with
   | [] => true
@@ -309,7 +325,7 @@ Fixpoint runs_ok (start_consistent : bool) (prev_done : option config) (rs : lis
     (* every TTL statement carries the tiers, disks and days of one of the run's configurations *)
     forallb (fun o => match obs_ttl o with None => true | Some _ => existsb (fun c => tier_cfg_obs c o) cfgs end) (r_log r) &&
     (* a timeout that does not parse / an environment that is refused: error; nothing to apply: nothing issued *)
-    (negb failed || r_err r) && (negb (is_nil cfgs) || is_nil (r_log r)) && env_ok r &&
+    (negb failed || r_err r) && (negb (is_nil cfgs) || is_nil (r_log r)) && env_ok r && glue_cluster_ok r cfgs &&
     record_after_all_obs [] (r_log r) &&
     (* an uninterrupted run of acceptable input never fails *)
     (match r_fault r with None => failed || negb (r_err r) | Some _ => true end) &&
